@@ -253,3 +253,119 @@ func c08CrashTrial(c *core.Ctx, idx int, self string, sh c08Shape, k int, tear f
 }
 
 var _ = core.Sub
+
+// ---- fault pass: a transient accept(2) failure on the run's status socket ---------------
+
+func c08FaultBody(c *core.Ctx) {
+	if gate.Sysgate() == "" {
+		c.Inconclusive("sysgate not built")
+		return
+	}
+	self, _ := os.Executable()
+	trial := func(idx, failAt, errno int, label string) (*gate.Result, bool) {
+		h, err := newBDHome(c, "c08f-")
+		if err != nil {
+			c.Inconclusive(err.Error())
+			return nil, false
+		}
+		defer os.RemoveAll(h.root)
+		marker := filepath.Join(h.root, "marker.txt")
+		loc := filepath.Join(h.dags, "live.yaml")
+		_ = os.WriteFile(loc, []byte("maxCleanUpTimeSec: 1\nsteps:\n  - name: main\n    command: "+yq(fmt.Sprintf("%s c05proc %s main exit-on-term", self, marker))+"\n"), 0644)
+		desc := map[string]any{"fail_system_call": failAt, "errno": errno, "label": label}
+		resCh := make(chan *gate.Result, 1)
+		go func() {
+			r, _ := gate.Run(gate.Opts{Watch: []string{h.data, h.logs, "/tmp/@blackdagger-live-"}, Env: h.env(), Dir: h.root, FailAt: failAt, Errno: errno, Timeout: 120 * time.Second}, c.Scratch, h.bin, "start", loc)
+			resCh <- r
+		}()
+		began := false
+		for i := 0; i < 3000 && !began; i++ {
+			for _, e := range readProcMarker(marker) {
+				if e.Kind == "BEGIN" && e.Name == "main" {
+					began = true
+				}
+			}
+			select {
+			case r := <-resCh:
+				// the run ended before its step began
+				if failAt > 0 {
+					c.Violate(idx, "fault-run-died|"+label, fmt.Sprintf("a single failing accept (errno %d) on the status socket ended the run before its step began", errno), desc)
+				}
+				return r, false
+			default:
+			}
+			time.Sleep(10 * time.Millisecond)
+		}
+		if !began {
+			c.Inconclusive("c08 fault: the step never began")
+			return <-resCh, false
+		}
+		time.Sleep(400 * time.Millisecond)
+		if failAt > 0 {
+			c.Eval(1)
+			c.Count("fault_trials", 1)
+			stores := dsclient.NewDataStores(h.dags, h.data, filepath.Join(h.home, "suspend"), dsclient.DataStoreOptions{LatestStatusToday: true})
+			cli := client.New(stores, "/bin/false", h.root, c13Logger)
+			d, err := dag.LoadMetadata(loc)
+			if err == nil {
+				c.Count("obligations", 2)
+				if st, err := cli.GetLatestStatus(d); err != nil || st.Status != dagsched.StatusRunning {
+					got := "error"
+					if st != nil {
+						got = st.Status.String()
+					}
+					c.Violate(idx, "fault-live-status|"+label, fmt.Sprintf("after one accept on the run's status socket failed (errno %d) the run, which is in progress, is reported %s (err=%v)", errno, got, err), desc)
+				}
+				if st, err := cli.GetCurrentStatus(d); err != nil || st.Status != dagsched.StatusRunning {
+					c.Violate(idx, "fault-current-status|"+label, fmt.Sprintf("after one failing accept (errno %d) the live status of the run in progress is not served", errno), desc)
+				}
+			}
+		}
+		// the run must still be stoppable through its socket
+		code, out, _ := h.run(30*time.Second, "stop", loc)
+		var res *gate.Result
+		select {
+		case res = <-resCh:
+		case <-time.After(45 * time.Second):
+			if failAt > 0 {
+				c.Violate(idx, "fault-unstoppable|"+label, fmt.Sprintf("after one failing accept (errno %d) `blackdagger stop` (exit %d) no longer ends the run: %s", errno, code, clip(out, 200)), desc)
+			} else {
+				c.Inconclusive("c08 fault: the counting run could not be stopped")
+			}
+			res = <-resCh
+		}
+		c.Sig("fault", failAt, errno)
+		return res, true
+	}
+	// where are the accepts?
+	res, ok := trial(0, 0, 0, "count")
+	if !ok || res == nil {
+		c.Inconclusive("c08 fault: counting run failed")
+		return
+	}
+	var accepts []int
+	for _, ev := range res.Events {
+		if ev.Name == "accept" {
+			accepts = append(accepts, ev.K)
+		}
+	}
+	if len(accepts) == 0 {
+		c.Inconclusive("c08 fault: no accept seen on the status socket")
+		return
+	}
+	c.Count("accept_calls_seen", int64(len(accepts)))
+	idx := 0
+	for ai, k := range accepts {
+		if ai >= 3 {
+			break
+		}
+		for _, errno := range []int{24, 23, 105, 103} { // EMFILE ENFILE ENOBUFS ECONNABORTED
+			if c.Mine(idx) {
+				c.Begin(idx, map[string]any{"accept_index": ai, "k": k, "errno": errno})
+				trial(idx, k, errno, fmt.Sprintf("accept#%d|errno%d", ai, errno))
+				c.End(idx)
+			}
+			idx++
+		}
+	}
+}
